@@ -36,7 +36,23 @@ pub fn gen_glued(t: &mut Tape) -> Option<Glued> {
     let mut lines = Vec::new();
     let n = t.urange(1, 3);
     for _ in 0..n {
-        match if crate::engine::gen_version() >= 2 { t.draw(6) } else { t.draw(4) } {
+        match if crate::engine::gen_version() >= 3 { t.draw(7) } else if crate::engine::gen_version() >= 2 { t.draw(6) } else { t.draw(4) } {
+            6 => {
+                // v3: SUB-RULE operands separated by an operator character, with and without a competing rule that
+                // reads the whole text as one operand; \u{1} marks the boundary between the first operand and the
+                // separator (a blank in the base text, possibly a block comment in the comment variants)
+                rules.push("@pre:#subruledef valq\n{\n    {v: u8} => v\n    r{n: u4} => 0xf @ n\n}".to_string());
+                rules.push("sbq {a: valq} - {b: valq} => 0x61 @ a @ b".to_string());
+                if t.flip() {
+                    rules.push("sbq {a: valq} => 0x62 @ a @ 0x00".to_string());
+                }
+                rules.push("ldq {a: valq}, [{b: valq} + {c: valq}] => 0x63 @ a @ b @ c".to_string());
+                if t.flip() {
+                    lines.push(("sbq".to_string(), format!("{}\u{1}- {}", *t.pick(&["7", "r1", "0x10", "(9)"]), t.draw(9))));
+                } else {
+                    lines.push(("ldq".to_string(), format!("r1, [{}\u{1}+ r{}]", *t.pick(&["4", "0x3", "r2"]), t.draw(9))));
+                }
+            }
             4 => {
                 // v2: mnemonics that start with a digit (one Number token with letters in it: `2dup`)
                 rules.push("2dup => 0x58".to_string());
@@ -97,8 +113,13 @@ impl Glued {
                 rules.swap(i, j);
             }
         }
-        let mut s = String::from("#ruledef\n{\n");
-        for r in &rules {
+        let mut s = String::new();
+        for r in rules.iter().filter_map(|r| r.strip_prefix("@pre:")) {
+            s.push_str(r);
+            s.push('\n');
+        }
+        s.push_str("#ruledef\n{\n");
+        for r in rules.iter().filter(|r| !r.starts_with("@pre:")) {
             s.push_str("    ");
             s.push_str(r);
             s.push('\n');
@@ -111,7 +132,7 @@ impl Glued {
                 cs.iter()
                     .enumerate()
                     .map(|(i, c)| {
-                        let prefix = i == 1 && cs[0] == '0' && (*c == 'x' || *c == 'b');
+                        let prefix = i >= 1 && cs[i - 1] == '0' && (*c == 'x' || *c == 'b') && (i < 2 || !cs[i - 2].is_ascii_alphanumeric());
                         if v.recase && !prefix && t.flip() {
                             c.to_ascii_uppercase()
                         } else {
@@ -130,7 +151,9 @@ impl Glued {
             if v.comments && t.flip() {
                 s.push_str(";* c *; ");
             }
-            s.push_str(&recase(t, op));
+            let op_text = recase(t, op);
+            let op_text = if v.comments && op_text.contains('\u{1}') && t.flip() { op_text.replace('\u{1}', " ;* c *; ") } else { op_text.replace('\u{1}', " ") };
+            s.push_str(&op_text);
             if v.comments && t.flip() {
                 s.push_str(" ; trailing");
             }
